@@ -430,9 +430,39 @@ func kindAccepts(m *yang.YangType, lex string) bool {
 // identityref members first (in schema order), then the others in schema order;
 // a string member additionally yields to every other member.
 func CanonicalInUnion(members []*yang.YangType, i int, lex string) bool {
+	return canonicalInUnion(members, i, lex, false)
+}
+
+// CanonicalInUnionGNMI is the rule for scalar gNMI TypedValues: two members can
+// only be confused when their values travel in the same TypedValue field
+// (int_val, uint_val, double_val, string_val, bool_val, bytes_val).
+func CanonicalInUnionGNMI(members []*yang.YangType, i int, lex string) bool {
+	return canonicalInUnion(members, i, lex, true)
+}
+
+func tvField(k yang.TypeKind) string {
+	switch k {
+	case yang.Yint8, yang.Yint16, yang.Yint32, yang.Yint64:
+		return "int"
+	case yang.Yuint8, yang.Yuint16, yang.Yuint32, yang.Yuint64:
+		return "uint"
+	case yang.Ydecimal64:
+		return "double"
+	case yang.Ybool:
+		return "bool"
+	case yang.Ybinary:
+		return "bytes"
+	}
+	return "string"
+}
+
+func canonicalInUnion(members []*yang.YangType, i int, lex string, gnmi bool) bool {
 	mi := members[i]
 	for j, mj := range members {
 		if j == i {
+			continue
+		}
+		if gnmi && tvField(mj.Kind) != tvField(mi.Kind) {
 			continue
 		}
 		if !isEnumKind(mi.Kind) && mj.Kind == mi.Kind && mi.Kind != yang.Yunion {
